@@ -35,6 +35,10 @@ func (c *Ctx) errFlow(e ssa.Value) *flowResult {
 		if sc := k.Call.StaticCallee(); sc != nil && sc.Name() == "NewError" && i == 1 {
 			return true
 		}
+		// a library helper that may hand the error back (e.g. an extracted furthestError(current, candidate, pos))
+		if sc := k.Call.StaticCallee(); sc != nil && i >= 0 && c.P.InLib(sc) && !ssax.IsParserSig(sc.Signature) && helperReturnsParam(sc, i) {
+			return true
+		}
 		return false
 	})
 }
@@ -186,6 +190,50 @@ func (c *Ctx) ruleR06a(rule string) {
 					}
 				}
 			}
+			// the error handed to a library helper: the conditions under which the helper keeps it
+			if e.Referrers() != nil {
+				for _, r := range *e.Referrers() {
+					k, ok := r.(*ssa.Call)
+					if !ok {
+						continue
+					}
+					h := k.Call.StaticCallee()
+					if h == nil || !c.P.InLib(h) || ssax.IsParserSig(h.Signature) {
+						continue
+					}
+					for ai, a := range k.Call.Args {
+						if a != ssa.Value(e) || !helperReturnsParam(h, ai) {
+							continue
+						}
+						hbase := func(v ssa.Value) bool {
+							if p, isP := v.(*ssa.Parameter); isP {
+								return isErrorType(p.Type()) || ssax.NamedIs(p.Type(), "parsley", "Pos")
+							}
+							return false
+						}
+						for _, hr := range ssax.Returns(h) {
+							keeps := false
+							for _, res := range hr.Results {
+								for _, l := range ssax.Leaves(res) {
+									if l == ssa.Value(h.Params[ai]) {
+										keeps = true
+									}
+								}
+							}
+							if !keeps {
+								continue
+							}
+							for _, cd := range ssax.DominatingConds(hr.Block()) {
+								if !condVocabularyOK(cd.Val, hbase, 0) {
+									bad = true
+									c.R.Violation(rule, c.name(h)+" keeps the error under a foreign condition", c.name(h), c.P.InstrPos(hr),
+										fmt.Sprintf("the helper keeps the error handed to it only under the condition %s, which is not a test on errors or positions", cd.Val.String()))
+								}
+							}
+						}
+					}
+				}
+			}
 			for _, b := range entry {
 				for _, cd := range ssax.DominatingConds(b) {
 					if cd.At != cl.Block() && cd.At.Dominates(cl.Block()) {
@@ -244,7 +292,10 @@ func (c *Ctx) ruleR06a(rule string) {
 							}
 							arg := k.Call.Args[1]
 							dep := false
-							if header != nil && dependsOn(arg, header, nil) {
+							if header != nil && dependsOn(arg, header, func(k *ssa.Call) bool {
+							sc := k.Call.StaticCallee()
+							return sc != nil && c.P.InLib(sc) && !ssax.IsParserSig(sc.Signature)
+						}) {
 								dep = true
 							}
 							if u, ok := ssax.Strip(arg).(*ssa.UnOp); ok && u.Op == token.MUL {
@@ -393,6 +444,23 @@ func sentinelExcluded(cl *ssa.Call, v ssa.Value) bool {
 		}
 		if y == v && isZx && zx == 0 && (op == token.LSS || op == token.NEQ) {
 			return true
+		}
+	}
+	return false
+}
+
+// helperReturnsParam: some return of fn may yield its i-th parameter.
+func helperReturnsParam(fn *ssa.Function, i int) bool {
+	if i >= len(fn.Params) || len(fn.Blocks) == 0 {
+		return false
+	}
+	for _, r := range ssax.Returns(fn) {
+		for _, res := range r.Results {
+			for _, l := range ssax.Leaves(res) {
+				if l == ssa.Value(fn.Params[i]) {
+					return true
+				}
+			}
 		}
 	}
 	return false
